@@ -29,7 +29,7 @@ def h_params_clientStart : Nat := 0x2abef1e02d2a7b52
 def h_params_nodeExecute : Nat := 0xa011c6431e0f8e5a
 
 /-- hash of the normalised skeleton of newCommand (internal/dag/executor/command.go) -/
-def h_params_newCommand : Nat := 0x24a618734f894039
+def h_params_newCommand : Nat := 0xbc7fe9e4f609f755
 
 /-- hash of the normalised skeleton of NewExecutionGraphForRetry (internal/dag/scheduler/graph.go) -/
 def h_params_NewExecutionGraphForRetry : Nat := 0x859d7c2a46d2316d
